@@ -41,8 +41,8 @@ CLAIMED = {
             "code, 0/1 only on device success, named cause, error-range status never stops the manager) is "
             "evaluated on the implementation's output for the status x step matrix.",
             "partial: the composition 'status at step k of the real exchange reaches the table lookup' is the "
-            "model's control flow, tied to the code by the correspondence matrix (all 65536 words at every step "
-            "kind in thorough); namedCause is a trusted reading of firmware headers and docs"),
+            "model's control flow, tied to the code by the correspondence matrix (pages 0x69-0x6D complete at every "
+            "step kind, all 65536 words for one step kind of sign and of advance, in thorough); namedCause is a trusted reading of firmware headers and docs"),
     "C05": ("Lean theorems: brothers handed to the block operation are a permutation of the client's brothers and "
             "pairwise ascending by hash key (total + transitive byte order, core mergeSort lemmas, stable); "
             "length/count fields round-trip; chunk theorems of C01 apply to header transfers. The oracle "
